@@ -228,6 +228,22 @@ fn merge(mut base: Value, extra: Value) -> Value {
         for (k, v) in e {
             b.insert(k.clone(), v.clone());
         }
+        // class of a panic message (text only; which classes count as announced refusals is the
+        // specification's decision)
+        if let Some(msg) = e.get("msg").and_then(|m| m.as_str()) {
+            let rk = if msg.starts_with("failed to determine lattice index") {
+                "noindex"
+            } else if msg.contains("(d - d.round()).abs()") || msg.contains("logdiff=") {
+                "float"
+            } else if msg.contains("hmax / hmin") || msg.contains("hmin <= hmax") {
+                "bounds"
+            } else if msg.contains("generators [") {
+                "snfdet"
+            } else {
+                "other"
+            };
+            b.insert("rk".into(), json!(rk));
+        }
     }
     base
 }
@@ -338,6 +354,23 @@ fn ev_det_sparse(c: &Case, rng: &mut StdRng, out: &mut Out) {
 /// widening by 0.9 / 1.1 (hmax * 1.1 / (hmin * 0.9) < 1.5)
 fn bounds_for(h: u128, shape: usize) -> (&'static str, f64, f64) {
     let hf = h as f64;
+    let (name, mut lo, mut hi) = bounds_shape(hf, shape);
+    if h >> 52 != 0 {
+        // h as f64 is rounded: keep the bracket true for the exact integer
+        lo = lo.min((hf * (1.0 - 1e-15)).floor());
+        hi = hi.max((hf * (1.0 + 1e-15)).ceil());
+    }
+    let prec = (hi - lo).abs();
+    let wlo = (0.9 * lo).max(lo - 3.0 * prec);
+    let whi = (1.1 * hi).min(hi + 3.0 * prec);
+    if lo >= 1.0 && whi / wlo < 1.47 {
+        (name, lo, hi)
+    } else {
+        ("exact", hf, hf)
+    }
+}
+
+fn bounds_shape(hf: f64, shape: usize) -> (&'static str, f64, f64) {
     match shape % 5 {
         0 => ("exact", hf, hf),
         1 => ("pm1pc", (hf * 0.99).floor(), (hf * 1.01).ceil()),
@@ -348,7 +381,7 @@ fn bounds_for(h: u128, shape: usize) -> (&'static str, f64, f64) {
 }
 
 fn all_rows(c: &Case, rng: &mut StdRng) -> Vec<Vec<i64>> {
-    let mut rows: Vec<Vec<i64>> = c.m.iter().chain(c.x.iter()).cloned().collect();
+    let mut rows: Vec<Vec<i64>> = c.m.iter().chain(c.x.iter()).filter(|r| r.iter().any(|&v| v != 0)).cloned().collect();
     // the routines expect an overdetermined system (at least 4 generators): pad with copies / negated
     // copies of basis rows (redundant generators, lattice unchanged)
     let mut i = 0;
@@ -492,7 +525,102 @@ fn ev_bm(rng: &mut StdRng, out: &mut Out, idx: usize, l: usize, pkind: usize, sk
 
 // ---------------------------------------------------------------------------------------------
 
+
+/// exploration aid (not used by the check): dense random matrices into det_matz
+fn probe(args: &Args) -> i32 {
+    let seed = arg_u64(args, "seed", 1);
+    let k = arg_u64(args, "k", 20) as usize;
+    let amp = arg_u64(args, "amp", 100) as i64;
+    let reps = arg_u64(args, "reps", 20);
+    let mut rng = rng_for(seed, "probe");
+    let mut fails = 0;
+    for rep in 0..reps {
+        let m: Vec<Vec<i64>> = if args.contains_key("formula") {
+            let a = rep as usize;
+            (0..k).map(|i| (0..k).map(|j| ((i * 37 + j * 91 + i * j * 13 + (i * i * j + a) % 17 + a * i) % 199) as i64 - 99).collect()).collect()
+        } else {
+            (0..k).map(|_| (0..k).map(|_| rng.gen_range(-amp..=amp)).collect()).collect()
+        };
+        let mut g = intdense::GramBuilder::default();
+        for r in &m {
+            g.add(r);
+        }
+        let l2 = g.detlog2_estimate();
+        let mm = m.clone();
+        let r = guard(move || {
+            let rows: Vec<&[i64]> = mm.iter().map(|v| &v[..]).collect();
+            intdense::det_matz(rows, l2)
+        });
+        match r {
+            Ok(d) => println!("rep {} ok bits {}", rep, d.unsigned_abs().bits()),
+            Err(e) => {
+                fails += 1;
+                println!("rep {} FAIL {} log2={}", rep, e, l2);
+                if k <= 12 { println!("{:?}", m); }
+            }
+        }
+    }
+    println!("fails {}/{}", fails, reps);
+    0
+}
+
+/// exploration aid: all 2x2 / random 3x3 small matrices into SmithNormalForm
+fn probe_snf(args: &Args) -> i32 {
+    let amp = arg_u64(args, "amp", 4) as i64;
+    let k = arg_u64(args, "k", 2) as usize;
+    let mut rng = rng_for(arg_u64(args, "seed", 1), "probe_snf");
+    let mut stats: std::collections::BTreeMap<String, (usize, String)> = Default::default();
+    let total = if k == 2 { (2 * amp + 1).pow(4) as usize } else { arg_u64(args, "reps", 20000) as usize };
+    for t in 0..total {
+        let m: Vec<Vec<i64>> = if k == 2 {
+            let b = 2 * amp + 1;
+            let mut x = t as i64;
+            let mut e = vec![];
+            for _ in 0..4 { e.push(x % b - amp); x /= b; }
+            vec![vec![e[0], e[1]], vec![e[2], e[3]]]
+        } else {
+            (0..k).map(|_| (0..k).map(|_| rng.gen_range(-amp..=amp)).collect()).collect()
+        };
+        // exact determinant by fraction-free elimination in i128
+        let mut a: Vec<Vec<i128>> = m.iter().map(|r| r.iter().map(|&v| v as i128).collect()).collect();
+        let mut det: i128 = 1; let mut prev: i128 = 1; let mut sing = false;
+        for c in 0..k {
+            if a[c][c] == 0 {
+                if let Some(r) = (c + 1..k).find(|&r| a[r][c] != 0) { a.swap(c, r); det = -det; } else { sing = true; break; }
+            }
+            for r in c + 1..k { for cc in c + 1..k { a[r][cc] = (a[r][cc] * a[c][c] - a[r][c] * a[c][cc]) / prev; } }
+            prev = a[c][c];
+        }
+        if sing { continue; }
+        let h = (det * a[k - 1][k - 1]).unsigned_abs();
+        if h == 0 { continue; }
+        let mut rows = m.clone();
+        let mut i = 0;
+        while rows.len() < 4.max(k + 1) { rows.push(m[i % k].clone()); i += 1; }
+        if m.iter().any(|r| r.iter().all(|&v| v == 0)) { continue; }
+        let rels: Vec<Vec<(u32, i32)>> = rows.iter().map(|r| r.iter().enumerate().filter(|(_, &v)| v != 0).map(|(j, &v)| (j as u32 + 2, v as i32)).collect()).collect();
+        let ncols = (0..k).filter(|&j| m.iter().any(|r| r[j] != 0)).count();
+        if ncols < k { continue; }
+        let hf = h as f64;
+        let r = guard(move || { let mut s = SmithNormalForm::new(&rels, vec![], hf, hf); s.reduce(); (s.h, (0..s.rows.len()).map(|i| s.rows[i][i]).collect::<Vec<_>>()) });
+        let key = match &r {
+            Ok((hh, dg)) => if *hh == h && dg.iter().product::<i128>() == h as i128 { "ok".to_string() } else { format!("WRONG") },
+            Err(e) => format!("{} {}", e["loc"], &e["msg"].as_str().unwrap()[..e["msg"].as_str().unwrap().len().min(50)]),
+        };
+        let ent = stats.entry(key).or_insert((0, format!("{:?} h={}", m, h)));
+        ent.0 += 1;
+    }
+    for (k, v) in stats { println!("{:6} {} e.g. {}", v.0, k.replace('\n', " "), v.1); }
+    0
+}
+
 pub fn run(args: &Args) -> i32 {
+    if args.contains_key("probe_snf") {
+        return probe_snf(args);
+    }
+    if args.contains_key("probe") {
+        return probe(args);
+    }
     let seed = arg_u64(args, "seed", 1);
     let thorough = arg_str(args, "tier", "quick") == "thorough";
     let behs = read_ndjson(arg_str(args, "beh", "behaviours.ndjson"));
@@ -523,6 +651,16 @@ pub fn run(args: &Args) -> i32 {
             let nrows = [1usize, 2, 5, 9, 14, 20, 24][(bi / 3) % 7].min(kk);
             let g = scale_big(&e, &mut rng, nrows, "s");
             ev_det_dense(&g, &mut out);
+        }
+        // (b') dense matrices (many operations): the blocked elimination of det_matz works on full rows
+        if bi % 6 == 2 && gentle {
+            let kk = [12usize, 20, 28, 40, 60][(bi / 6) % 5];
+            let kk = if thorough { kk } else { kk.min(40) };
+            let e = extend(&c, &mut rng, kk, 40 * kk, 1000, "d");
+            ev_det_dense(&e, &mut out);
+            if bi % 12 == 2 {
+                ev_lattice(&e, &mut rng, &mut out, bi, false);
+            }
         }
         // (c) big determinants directly on the behaviour
         if bi % 2 == 1 {
